@@ -198,6 +198,16 @@ def bit_count_sufficient(n: ast.AST, depth=0) -> (Optional[bool], str):
             inner = n.func.value
             if isinstance(inner, ast.Call) and dotted(inner.func) == "int" and len(inner.args) == 1:
                 inner = inner.args[0]
+
+            # the bound of an integer variable is integral: int(ceil(ub)), ceil(ub), int(ub) all denote ub in the case that decides
+            class _Int(ast.NodeTransformer):
+                def visit_Call(self, node):
+                    node = self.generic_visit(node)
+                    if (dotted(node.func) or "") in ("int", "ceil", "math.ceil", "round", "floor", "math.floor") and len(node.args) == 1 and not node.keywords:
+                        return node.args[0]
+                    return node
+            import copy as _copy
+            inner = _Int().visit(_copy.deepcopy(inner))
             d = dominates(inner, Poly.atom("ub"), ["ub"])
             if d is True:
                 return True, f"int({norm(inner)}).bit_length() with {norm(inner)} >= ub"
@@ -516,6 +526,33 @@ def r5(prog, rep):
                 return root(e.args[0], depth + 1)
         return norm(e)
 
+    def reaches(e: ast.AST, depth=0, seen=None) -> Set[str]:
+        """self attributes an expression's value derives from (def-use closure over locals, including collections filled
+        in loops and names bound by `for ... in zip(a, b)`)"""
+        seen = set() if seen is None else seen
+        out: Set[str] = set()
+        for n in ast.walk(e):
+            d = dotted(n) if isinstance(n, ast.Attribute) else None
+            if d and d.startswith("self._pending"):
+                out.add(d)
+            if isinstance(n, ast.Name) and n.id not in seen and depth < 8:
+                seen.add(n.id)
+                for st in walk_no_nested(f.node):
+                    if isinstance(st, ast.Assign):
+                        for t in st.targets:
+                            base = t
+                            while isinstance(base, ast.Subscript):
+                                base = base.value
+                            names_t = {x.id for x in ast.walk(base) if isinstance(x, ast.Name)} if not isinstance(t, ast.Name) else {t.id}
+                            if isinstance(t, ast.Tuple):
+                                names_t = {x.id for x in ast.walk(t) if isinstance(x, ast.Name)}
+                            if n.id in names_t:
+                                out |= reaches(st.value, depth + 1, seen)
+                    elif isinstance(st, ast.For):
+                        if n.id in {x.id for x in ast.walk(st.target) if isinstance(x, ast.Name)}:
+                            out |= reaches(st.iter, depth + 1, seen)
+        return out
+
     calls = list(calls_in(f.node))
     ccb = [c for c in calls if isinstance(c.func, ast.Attribute) and c.func.attr == "changeColsBounds"]
     n_ok = 0
@@ -530,10 +567,11 @@ def r5(prog, rep):
             else:
                 rep.violation("C12.R5", key, f"fix queue writes lower from `{lo}` and upper from `{up}` (must both be the queued values)", f.loc(c))
             n_ok += 1
-        elif "_pending_lb_vals" in lo or "_pending_lb_vals" in up:
+        elif "self._pending_lb_vals" in reaches(c.args[2]) or "self._pending_lb_vals" in reaches(c.args[3]):
             key = "SolverWrapper._apply_pending_bound_updates:highs:lower-bound"
             want = f"self.solver.getCols()[{GETCOLS_ORDER.index('upper')}]"
-            if lo == "self._pending_lb_vals" and up == want:
+            lo_src, up_src = reaches(c.args[2]), reaches(c.args[3])
+            if "self._pending_lb_vals" in lo_src and "self._pending_fix_vals" not in lo_src and up == want:
                 rep.ok("C12.R5", key, "lower-bound queue: new lower = requested, upper = current upper (element 4 = `upper` of Highs.getCols)",
                        f.loc(c), sample={"call": norm(c), "upper_from": up, "contract": GETCOLS_ORDER})
             else:
@@ -542,6 +580,45 @@ def r5(prog, rep):
                 rep.violation("C12.R5", key, f"lower-bound queue passes {what} of Highs.getCols (contract: {', '.join(GETCOLS_ORDER)}) as the new upper "
                               f"bound and `{lo}` as lower: the upper bound of the variable is not preserved", f.loc(c))
             n_ok += 1
+    # contract of Highs.getCols(num_set_entries, set): `set` must be strictly increasing, otherwise the call returns an error status
+    # and zero-filled arrays; the status / number of returned columns must be looked at before the arrays are used
+    for gc in [c for c in calls if isinstance(c.func, ast.Attribute) and c.func.attr == "getCols"]:
+        key = "SolverWrapper._apply_pending_bound_updates:highs:getCols-contract"
+        idx_arg = gc.args[1] if len(gc.args) > 1 else None
+        if idx_arg is None:
+            raise AnalysisError("getCols call without an index set")
+
+        def last_def(name: str, before: int) -> Optional[ast.AST]:
+            best = None
+            for st in walk_no_nested(f.node):
+                if isinstance(st, ast.Assign) and len(st.targets) == 1 and isinstance(st.targets[0], ast.Name) and st.targets[0].id == name and st.lineno < before:
+                    if best is None or st.lineno > best.lineno:
+                        best = st
+            return best.value if best is not None else None
+
+        def sorted_origin(e: ast.AST, depth=0, before=gc.lineno) -> bool:
+            for n in ast.walk(e):
+                if isinstance(n, ast.Call) and (dotted(n.func) or "").split(".")[-1] in ("sorted", "sort", "unique", "arange", "range"):
+                    return True
+            if depth < 4:
+                for n in ast.walk(e):
+                    if isinstance(n, ast.Name):
+                        d_ = last_def(n.id, before)
+                        if d_ is not None and sorted_origin(d_, depth + 1, before):
+                            return True
+            return False
+        checked = False
+        for n in walk_no_nested(f.node):
+            if isinstance(n, ast.If) and any(isinstance(b, ast.Raise) for b in n.body):
+                for x in ast.walk(n.test):
+                    if isinstance(x, ast.Name) and x.id in unpack and unpack[x.id][0] is gc and unpack[x.id][1] in (0, 1):
+                        checked = True
+        if sorted_origin(idx_arg) and checked:
+            rep.ok("C12.R5", key, "columns are read for a sorted index set and the number of returned columns / status is checked before use", f.loc(gc))
+        else:
+            rep.violation("C12.R5", key, ("the index set passed to Highs.getCols is in queue order (not sorted): HiGHS returns an error and zero-filled arrays for a "
+                                          "non-increasing set, which are then written back as upper bounds" if not sorted_origin(idx_arg) else
+                                          "the status / number of columns returned by Highs.getCols is never looked at before its arrays are used"), f.loc(gc))
     ccl = [c for c in calls if isinstance(c.func, ast.Attribute) and c.func.attr == "changeColsLower"]
     has = stub_has_method("changeColsLower")
     rep.extra["highspy_stub_changeColsLower"] = has
